@@ -18,7 +18,20 @@ import (
 func (k *kit) oracles() string {
 	k.mu.Lock()
 	defer k.mu.Unlock()
-	agree, once, lin, run := "ok", "ok", "ok", "ok"
+	agree, once, lin, run, stamp := "ok", "ok", "ok", "ok", "ok"
+	// stamp: an entry applied anywhere names, as its proposer, the store whose ProposeCommand
+	// created it (whatever peer id the client put into the header)
+	for key, seq := range k.applied {
+		for _, e := range seq {
+			f := strings.Split(e, "/")
+			tag := atoi(f[2])
+			if tag >= 1 && tag <= len(k.calls) && k.calls[tag-1].kind == "propose" && k.calls[tag-1].tag == tag {
+				if from := atoi(f[0]); from != k.calls[tag-1].store {
+					stamp = fmt.Sprintf("fail:s%d/r%d:entry-of-w%d-proposed-on-store-%d-names-store-%d", key[0], key[1], tag, k.calls[tag-1].store, from)
+				}
+			}
+		}
+	}
 	if len(k.problems) > 0 {
 		run = "fail:" + strings.ReplaceAll(k.problems[0], " ", "_")
 	}
@@ -113,7 +126,7 @@ func (k *kit) oracles() string {
 			lin = fmt.Sprintf("fail:w%d-read-%s-but-acked-prefix-%d-of-%d", rd.w, rd.value, lo, len(longest[rd.region]))
 		}
 	}
-	return fmt.Sprintf("agree=%s,once=%s,lin=%s,run=%s", agree, once, lin, run)
+	return fmt.Sprintf("agree=%s,once=%s,lin=%s,stamp=%s,run=%s", agree, once, lin, stamp, run)
 }
 
 // readRec is what the linearizability oracle needs about one read.
